@@ -2,7 +2,9 @@
    (or a one-line instantiation) and followed by Print Assumptions.  One file per property, importing only
    what that property's statements need, so that a change which breaks one property's proof leaves the
    others' theorems checkable. *)
-From NTRIP Require Import Base Bits Time Classify Frame FrameSpec FrameProofs Retry RetryProofs.
+From Coq Require Import List Arith NArith ZArith.
+Import ListNotations.
+From NTRIP Require Import Base Bits Time Classify Frame FrameSpec FrameProofs Retry RetryProofs Net Pipe IncFrame RetryPipe.
 
 (* ===================== C13 (the read loop) ===================== *)
 (* Wherever end-of-file / timeout results, pauses and other errors fall, every byte the source
@@ -42,6 +44,38 @@ Theorem C13_stop_silent : forall tol wait s rest, r_first s = None ->
   exists s' k, run_script tol wait (REof :: REof :: REof :: REof :: rest) s = (s', StopEOF, k) /\ r_out s' = r_out s.
 Proof. exact silence_stops. Qed.
 Print Assumptions C13_stop_silent.
+
+(* ===================== C13 (end to end) ===================== *)
+(* The read loop as the reader of the network reader -> framer (byte-driven, IncFrame.v) -> fan-out ->
+   consumers, unbuffered or buffered channels, every schedule.  Whatever the source does - end-of-file
+   and timeout results, pauses, other errors, anywhere, any tolerance - the loop consumes a prefix of the
+   script (followed by the source's final silence), forwards exactly that prefix's data, and every
+   execution of the network is finite and ends with every live consumer holding handle_stream's messages
+   for those bytes: their raw bytes concatenate to the received data (so a frame cut by the stop arrives
+   as a non-RTCM message, and nothing is lost, repeated or reordered), none is empty, reader and framer
+   have halted and the byte and message channels are closed. *)
+Theorem C13_delivered_any_faults : forall t0 (k : nat) (live sync : nat -> bool) cap0 cap1 caps,
+  (1 <= cap0)%nat -> (1 <= cap1)%nat -> length caps = k -> Forall (fun c => (1 <= c)%nat) caps ->
+  forall tol wait script,
+  exists consumed rest ms h',
+    script ++ [REof; REof; REof; REof] = consumed ++ rest /\
+    fst (run_reader tol wait script) = data_of consumed /\
+    handle_stream (new_handler t0) (data_of consumed) = Ok (ms, h') /\
+    concat (map raw ms) = data_of consumed /\ Forall (fun x => raw x <> []) ms /\
+    delivered_by_every_schedule t0 k live sync cap0 cap1 caps (fst (run_reader tol wait script)) ms.
+Proof. exact reader_pipeline_any_faults. Qed.
+Print Assumptions C13_delivered_any_faults.
+
+(* Single and double interruptions within a non-zero tolerance, between or inside frames: the consumers
+   receive the messages of the uninterrupted stream. *)
+Theorem C13_delivered_gentle : forall t0 (k : nat) (live sync : nat -> bool) cap0 cap1 caps,
+  (1 <= cap0)%nat -> (1 <= cap1)%nat -> length caps = k -> Forall (fun c => (1 <= c)%nat) caps ->
+  forall tol wait script, (0 < tol)%N -> (wait <= tol)%N -> gentle script ->
+  exists ms h',
+    handle_stream (new_handler t0) (data_of script) = Ok (ms, h') /\
+    delivered_by_every_schedule t0 k live sync cap0 cap1 caps (fst (run_reader tol wait script)) ms.
+Proof. exact reader_pipeline_gentle. Qed.
+Print Assumptions C13_delivered_gentle.
 
 Example C13_example :
   run_reader 200 1 [RData [65; 66]; REof; RData [211; 0]; RTimeout; REof; RData [1]]%N = ([65; 66; 211; 0; 1]%N, StopEOF) /\
